@@ -61,6 +61,10 @@ static TRACE: Mutex<Vec<String>> = Mutex::new(Vec::new());
 /// number of `Partition::get_cols` calls on table `t` (one per partition a query task runs over)
 static COLS_T: AtomicUsize = AtomicUsize::new(0);
 static FIRED: AtomicUsize = AtomicUsize::new(0);
+/// where the armed io fault fired during a flush: 0 = not at all (nothing was written: memory-only database, no new
+/// partition), 1 = before `flush:persist:after` (persisting the new partitions: flush thread / io pool),
+/// 2 = after it (inside a compaction job: `prepare_compact` writes the merged partition on the flush pool)
+static IO_FIRED: AtomicUsize = AtomicUsize::new(0);
 
 fn sync_cb(label: &str) {
     if label == "cols:enter:t" { COLS_T.fetch_add(1, Ordering::SeqCst); }
@@ -99,7 +103,12 @@ fn fs_cb(label: &str, path: &std::path::Path, _data: &[u8]) {
         }
         fire
     };
-    if fire { FIRED.fetch_add(1, Ordering::SeqCst); panic!("verif-injected io fault at {} {}", label, name); }
+    if fire {
+        FIRED.fetch_add(1, Ordering::SeqCst);
+        let after_persist = TRACE.lock().unwrap().iter().any(|l| l == "flush:persist:after");
+        IO_FIRED.store(if after_persist { 2 } else { 1 }, Ordering::SeqCst);
+        panic!("verif-injected io fault at {} {}", label, name);
+    }
 }
 fn arm(label: &str, skip: usize, times: usize) { PLAN.lock().unwrap().push(Armed { label: label.to_string(), skip, times }); }
 fn disarm_all() { PLAN.lock().unwrap().clear(); }
@@ -385,8 +394,10 @@ fn run_req(d: &mut Dut, r: &Req) -> Outcome {
             Outcome { tok: "in".into(), out: o, class: "ingest".into(), note: String::new() }
         }
         Req::Flush { rows, batch_fault, compact_fault, thread_fault, io_fault } => {
-            if *rows > 0 { let _ = d.ingest_t(*rows); trace_take(); }
+            if *rows > 0 { let _ = d.ingest_t(*rows); }
+            trace_take();
             FIRED.store(0, Ordering::SeqCst);
+            IO_FIRED.store(0, Ordering::SeqCst);
             if *io_fault { arm("fs:store:begin:.part", 0, 1); }
             if *batch_fault { arm("flush:batch:after:t", 0, 1); }
             if *compact_fault { arm("flush:compact:swap:before:t", 0, 1); }
@@ -400,16 +411,21 @@ fn run_req(d: &mut Dut, r: &Req) -> Outcome {
             let k1 = tr.iter().filter(|l| l.starts_with("flush:batch:after:")).count();
             let f1 = if *batch_fault && had_rows { 1 } else { 0 };
             let k2 = tr.iter().filter(|l| l.starts_with("flush:compact:swap:before:")).count();
-            let f2 = if *compact_fault && tr.iter().any(|l| l == "flush:compact:swap:before:t") { 1 } else { 0 };
+            // an armed fault only counts where its site was reached: the io fault is armed for the first partition file
+            // written, which is a new partition (persist phase) or, when there is none, the merged partition a
+            // compaction job writes in `prepare_compact` — then it is one more failing compaction job, not a failure
+            // of the flush thread; on a memory-only database nothing is written and it never fires
+            let io_at = if *io_fault { IO_FIRED.load(Ordering::SeqCst) } else { 0 };
+            let f2 = (if *compact_fault && tr.iter().any(|l| l == "flush:compact:swap:before:t") { 1 } else { 0 }) + (if io_at == 2 { 1 } else { 0 });
             let reached_persist = tr.iter().any(|l| l == "flush:persist:after");
             // a failing partition write (inline on the flush thread, or an io pool job whose missing result the fan-in
             // turns into a panic of the flush thread) is a fault of the flush thread's own work between the two phases
-            let io_fired = *io_fault && FIRED.load(Ordering::SeqCst) > 0;
+            let io_fired = io_at == 1;
             let tf = if (*thread_fault && reached_persist) || io_fired { 1 } else { 0 };
             if had_rows { d.t_parts += 1; d.t_buffered = false; }
             if k2 > 0 && f2 == 0 && tr.iter().any(|l| l == "flush:compact:swap:after:t") { d.t_parts = 1; }
             Outcome { tok: format!("fl.{}.{}.{}.{}.{}", k1, f1, k2, f2, tf), out: o,
-                      class: format!("flush:{}{}{}", if f1 > 0 { "batchfault" } else { "" }, if f2 > 0 { "compactfault" } else { "" }, if io_fired { "iofault" } else if tf > 0 { "threadfault" } else if f1 + f2 == 0 { "ok" } else { "" }),
+                      class: format!("flush:{}{}{}", if f1 > 0 { "batchfault" } else { "" }, if io_at == 2 { "compactiofault" } else if f2 > 0 { "compactfault" } else { "" }, if io_fired { "iofault" } else if tf > 0 { "threadfault" } else if f1 + f2 == 0 { "ok" } else { "" }),
                       note: format!("trace={}", tr.len()) }
         }
         Req::Phase(ph) => {
